@@ -137,6 +137,10 @@ func cmdCheck(prop, tier string, jobs int) int {
 	start := time.Now()
 	seed, _ := strconv.Atoi(envOr("VERIF_SEED", "0"))
 	evPath := filepath.Join(verifDir, "evidence", prop+".json")
+	if os.Getenv("VERIF_REPO") != "" && os.Getenv("VERIF_REPO") != "/repo" {
+		// runs against a scratch copy (selftest, seeded changes) must not touch the evidence of the real tree
+		evPath = filepath.Join(os.TempDir(), "govc-scratch-evidence-"+prop+".json")
+	}
 	os.Remove(evPath)
 	s, err := loadSession()
 	if err != nil {
